@@ -26,7 +26,7 @@ RULE = ("generated BIDS-style trees: 1-3 subjects, optional sessions, 1-2 tasks,
 ASSUMPTIONS = ["inheritance resolver hedmon/oracle/bids.py written from the property text",
                "expected dataset issues are computed with hed's own Sidecar.validate / TabularInput.validate on the "
                "resolver's chains (C06-C08 decide those entry points)", "schema 8.3.0 from dataset_description.json"]
-MIN_MONITOR_EVALS = {"merged-sidecar-equals-model": 200, "excluded-dirs-ignored": 60, "dataset-issues-equal-union": 60,
+MIN_MONITOR_EVALS = {"merged-sidecar-equals-model": 200, "excluded-dirs-ignored": 60, "dataset-issues-equal-union": 60, "several-file-kinds-equal-union": 40,
                      "cli-exit-status": 60}
 WATCHDOG_S = {"quick": 900, "thorough": 5400}
 KEYS = {"trial_type": ["go", "stop"], "response": ["left", "right"]}
@@ -137,6 +137,19 @@ def build_tree(root, rng, gen):
                     put(f"{base}/eeg/{stem}_events.tsv", "\n".join(rows) + "\n")
                     if rng.random() < 0.15:
                         put(f"{base}/eeg/{stem}_events.json", sidecar_content())
+    # a second kind of tabular file with its own sidecars (takes part only when the caller names its suffix)
+    if rng.random() < 0.5:
+        if rng.random() < 0.7:
+            put("beh.json", sidecar_content())
+        for s in range(1, nsub + 1):
+            sub = f"{s:02d}"
+            if rng.random() < 0.3:
+                put(f"sub-{sub}/sub-{sub}_beh.json", sidecar_content())
+            rows = ["trial_type\tresponse\tHED"]
+            for i in range(rng.randrange(1, 4)):
+                hed = "Zzunknownword" if rng.random() < 0.3 else rng.choice(["n/a", "Red", "(Green, Blue)"])
+                rows.append("\t".join([rng.choice(KEYS["trial_type"] + ["n/a"]), rng.choice(KEYS["response"] + ["n/a"]), hed]))
+            put(f"sub-{sub}/beh/sub-{sub}_task-A_beh.tsv", "\n".join(rows) + "\n")
     # decoys in excluded directories (content that would raise errors if it took part)
     for d in rng.sample(EXCLUDE, rng.randrange(1, 4)):
         put(f"{d}/sub-01/eeg/sub-01_task-A_events.tsv", "onset\tduration\tHED\n1.0\t0.5\tZznotatag-decoy\n")
@@ -166,17 +179,24 @@ def issue_key(i):
             str(i.get("ec_sidecarColumnName")), str(i.get("ec_sidecarKeyName")))
 
 
-def expected_issues(root, schema, check_for_warnings, EXCLUDE=EXCLUDE):        # noqa (default: the package's default)
+def expected_issues(root, schema, check_for_warnings, EXCLUDE=EXCLUDE, suffixes=("events",)):        # noqa (default: the package's default)
+    out = []
+    for suffix in suffixes:
+        out += expected_issues_of(root, schema, check_for_warnings, EXCLUDE, suffix)
+    return out
+
+
+def expected_issues_of(root, schema, check_for_warnings, EXCLUDE, suffix):        # noqa
     from hed.models.sidecar import Sidecar
     from hed.models.tabular_input import TabularInput
     from hed.errors.error_reporter import ErrorHandler
     out = []
-    sidecars = bids_oracle.data_files(root, "events", ".json", EXCLUDE)
+    sidecars = bids_oracle.data_files(root, suffix, ".json", EXCLUDE)
     for s in sidecars:
         chain = bids_oracle.chain_for(root, s, EXCLUDE)
         out += Sidecar(chain, name=os.path.basename(s)).validate(schema, name=os.path.basename(s),
                                                                   error_handler=ErrorHandler(check_for_warnings))
-    for f in bids_oracle.data_files(root, "events", ".tsv", EXCLUDE):
+    for f in bids_oracle.data_files(root, suffix, ".tsv", EXCLUDE):
         chain = bids_oracle.chain_for(root, f, EXCLUDE)
         sc = Sidecar(chain) if chain else None
         out += TabularInput(f, sc, name=f).validate(schema, name=os.path.basename(f),
@@ -253,6 +273,25 @@ def _check(root, case, rec, schema, BidsDataset):
         elif sorted(issue_key(i) for i in got2) != sorted(issue_key(i) for i in want2):
             rec.violation("with an explicit exclusion list the dataset issues differ from the union over the files that take part",
                           dict(case, exclude=excl), key="sidecar-chain-of-deepest" if multi else None)
+    # several kinds of tabular file asked for at once, in either order: the issues of all of them are returned
+    if any(rel.endswith("_beh.tsv") for rel in case["files"]):
+        for types in (["events", "beh"], ["beh", "events"]):
+            rec.mon("several-file-kinds-equal-union")
+            try:
+                ds3 = BidsDataset(root, schema=schema, tabular_types=list(types))
+                got3 = ds3.validate(check_for_warnings=False)
+                got3b = BidsDataset(root, schema=schema, tabular_types=["events", "beh"]).validate(
+                    types=list(types), check_for_warnings=False)
+                want3 = expected_issues(root, schema, False, suffixes=types)
+            except Exception as ex:  # noqa
+                rec.violation(f"dataset with two kinds of tabular file raised {type(ex).__name__}", dict(case, types=types))
+                continue
+            if want3:
+                rec.count("several-file-kinds", "with-issues")
+            if sorted(issue_key(i) for i in got3) != sorted(issue_key(i) for i in want3) or \
+                    sorted(issue_key(i) for i in got3b) != sorted(issue_key(i) for i in want3):
+                rec.violation("with two kinds of tabular file the dataset issues differ from the union over both kinds",
+                              dict(case, types=types), key="sidecar-chain-of-deepest" if multi else None)
     for warn in (True, False):
         rec.mon("dataset-issues-equal-union")
         try:
